@@ -7,11 +7,13 @@
     in particular with every other participant frozen or dead wherever it is - a
     lookup, touch, set, put, set_temp_file or put_temp_file whose received
     responses all lie in the class of what peers can cause finishes WITHOUT an
-    I/O error ([C06_survivor_succeeds]).  That the responses of every reachable
+    I/O error ([C06_survivor_succeeds]); and maintenance is linear in what it
+    lists: at most 7 + 5 * (names returned by its two listings) calls, whatever
+    the responses ([C06_maintenance_is_linear]).  That the responses of every reachable
     state do lie in that class is established by the frozen-peer exploration
     (vlib/c06.py). *)
 From Coq Require Import List NArith ZArith String Bool.
-From Kismet Require Import Gen.Constants Gen.Agree FS.Fs FS.Prog Ops.Ops Spec.Wp Spec.CountMon Conc.Pool Conc.PoolProofs Proofs.PoolLift Proofs.RaceFree Proofs.RaceFreeW.
+From Kismet Require Import Gen.Constants Gen.Agree FS.Fs FS.Prog Ops.Ops Spec.Wp Spec.CountMon Conc.Pool Conc.PoolProofs Proofs.PoolLift Proofs.RaceFree Proofs.RaceFreeW Proofs.MaintLinear.
 Import ListNotations.
 Local Open Scope Z_scope.
 
@@ -63,6 +65,21 @@ Proof.
   intros cfg f k v Hw Hd. split; [intros Hc; apply rf_pool, rf_cache_get, Hc|]. split; [apply rf_pool, rf_cache_touch|].
   split; apply rw_pool; [exact (rw_cache_write v true cfg f k Hw Hd)|exact (rw_cache_write v false cfg f k Hw Hd)].
 Qed.
+
+(** Maintenance: linear in the number of directory entries, for arbitrary responses. *)
+Theorem C06_maintenance_is_linear : forall d base s,
+  wp ln_step (definitely_cleanup d base) (fun _ s' => (fst s' + 5 * snd s <= fst s + 7 + 5 * snd s' /\ snd s <= snd s')%nat) s.
+Proof. exact maintenance_is_linear. Qed.
+
+Theorem C06_maintenance_is_linear_on_every_run : forall d base w o,
+  let '(_, _, _, tr) := run (definitely_cleanup d base) w o in
+  exists s', mon_run ln_step (0%nat, 0%nat) tr = Some s' /\ (fst s' <= 7 + 5 * snd s')%nat.
+Proof. exact maintenance_is_linear_run. Qed.
+
+Theorem C06_linear_monitor_meaning : forall s dh l c r,
+  ln_step s (EvCall (CReadDir dh) (RNames l)) = Some (S (fst s), (snd s + List.length l)%nat) /\
+  (match c with CReadDir _ => False | _ => True end -> ln_step s (EvCall c r) = Some (S (fst s), snd s)).
+Proof. intros s dh l c r. split; [reflexivity|]. destruct c; intros H; try reflexivity. destruct H. Qed.
 
 Theorem C06_no_lock_in_vocabulary : forall c : call,
   match c with
